@@ -86,10 +86,12 @@ def check_spec(spec, outs=None, pens=None):
     """-> list of (step index, family, message, info); [] when the property holds on
     this sequence.  info = {"what": kind of difference, "row": row or None}.
     `outs` = run_impl(spec) if already available.
-    A bare reset() is only in contract where the renderer is fresh (after a final
-    render, an erase, a reset or construction): elsewhere it redefines the origin
-    without moving the cursor, and the oracle stops judging until the next erase
-    or final render re-establishes a known state."""
+    A bare reset() redefines the origin (the cursor row) without moving the cursor.
+    It is in contract whenever the cursor is in column 0 (theorem C06_reset_col0:
+    after a final render, an erase, a reset, construction, or a render whose cursor
+    column is 0); with the cursor elsewhere the next render starts at that column
+    and the oracle stops judging until the next final render re-establishes a
+    known state."""
     pens = pens or PenTable()
     if outs is None:
         outs = c06_impl.run_impl(spec, pens)
@@ -150,7 +152,12 @@ def check_spec(spec, outs=None, pens=None):
                 t.shift_origin(t.cy)
                 prev_h = 0
                 fresh = True
-                contract = True       # "\r\n" + origin shift: a known state again
+                if not contract and t.cx == 0:
+                    # the final "\r\n" brought the cursor back to column 0: a known state again
+                    # (a final render of a 0-row output emits no newline: the cursor stays where the
+                    # out-of-contract reset() left it, and judgement stays suspended)
+                    t.undef = 0       # whatever happened while out of contract is not judged
+                    contract = True
         elif op[0] == "erase":
             above = [[t.cell(y, x) for x in range(t.W)] for y in (-2, -1)]
             feed(t, outs[i + 1], pens)
@@ -173,7 +180,7 @@ def check_spec(spec, outs=None, pens=None):
             feed(t, outs[i + 1], pens)
             t.shift_origin(t.cy)
             prev_h = 0
-            if not fresh:
-                contract = False      # bare reset() away from a fresh state: out of contract
+            if not fresh and t.cx != 0:
+                contract = False      # bare reset() with the cursor away from column 0: out of contract
             fresh = True
     return fails
